@@ -147,5 +147,22 @@ Proof.
   split; [vm_compute; reflexivity | vm_compute; discriminate].
 Qed.
 
+(* T17.9b sum(range(a, b)) after the repair of literal empty ranges: right whenever a <= b or the
+   bounds are literals; still refuted for symbolic bounds with b < a (known finding F17-1) *)
+Theorem sum_range_out_sound :
+  forall literal a b, a <= b \/ literal = true -> 2 * sum_range a b = sum_range_out2 literal a b.
+Proof.
+  intros literal a b H. unfold sum_range_out2.
+  destruct (Z.ltb_spec b a) as [Hlt|Hge].
+  - destruct H as [H|H]; [lia|]. subst. cbn [andb].
+    unfold sum_range. replace (Z.to_nat (b - a)) with O by lia. reflexivity.
+  - rewrite andb_false_r. apply sum_range_closed_form. exact Hge.
+Qed.
+
+Theorem sum_range_out_symbolic_refuted :
+  exists a b, b < a /\ 2 * sum_range a b <> sum_range_out2 false a b.
+Proof. exists 5, 3. split; [lia | vm_compute; discriminate]. Qed.
+
 Print Assumptions simplify_ctx_sound.
+Print Assumptions sum_range_out_sound.
 Print Assumptions simplify_value_refuted.
